@@ -1,0 +1,88 @@
+//! C01 hooks: drive the token-level parsers (`parse_instructions`, `parse_expression`,
+//! `parse_memory_reference`, `parse_frame_identifier`, `parse_extern_signature`) with an arbitrary
+//! token sequence and report nom's `Error` / `Failure` distinction and the number of left-over
+//! tokens; read the crate-private fields of `DefGateSequence`. Add-only,
+//! `cfg(rigetti_quil_rs_verif)`.
+use crate::expression::Expression;
+use crate::instruction::{
+    DefGateSequence, ExternSignature, FrameIdentifier, Gate, Instruction, MemoryReference,
+};
+use crate::parser::{Token, TokenWithLocation};
+
+/// Which token-level parser to run.
+#[derive(Clone, Copy, Debug, PartialEq, Eq)]
+pub enum Entry {
+    /// `parser::instruction::parse_instructions` (what `Program::from_str` and
+    /// `Instruction::from_str` call).
+    Instructions,
+    /// `parser::expression::parse_expression` (`Expression::from_str`).
+    Expression,
+    /// `parser::common::parse_memory_reference` (`MemoryReference::from_str`).
+    MemoryReference,
+    /// `parser::common::parse_frame_identifier` (`FrameIdentifier::from_str`).
+    FrameIdentifier,
+    /// `parser::pragma_extern::parse_extern_signature` (`ExternSignature::from_str`).
+    ExternSignature,
+}
+
+/// What the parser returned.
+#[derive(Clone, Debug, PartialEq)]
+pub enum Parsed {
+    Instructions(Vec<Instruction>),
+    Expression(Expression),
+    MemoryReference(MemoryReference),
+    FrameIdentifier(FrameIdentifier),
+    ExternSignature(ExternSignature),
+}
+
+/// `nom::Err::Error` (recoverable) versus `nom::Err::Failure` (after `cut`).
+#[derive(Clone, Copy, Debug, PartialEq, Eq)]
+pub enum Rejected {
+    Error,
+    Failure,
+}
+
+/// Run the chosen token-level parser on `tokens`; on success also return the number of tokens
+/// left over.
+pub fn parse_tokens(entry: Entry, tokens: Vec<Token>) -> Result<(Parsed, usize), Rejected> {
+    let span = nom_locate::LocatedSpan::new("");
+    let input: Vec<TokenWithLocation> = tokens
+        .into_iter()
+        .map(|token| TokenWithLocation::verif_new(token, span))
+        .collect();
+    fn finish<'a, O>(
+        result: nom::IResult<crate::parser::ParserInput<'a>, O, crate::parser::InternalParseError<'a>>,
+        wrap: impl FnOnce(O) -> Parsed,
+    ) -> Result<(Parsed, usize), Rejected> {
+        match result {
+            Ok((rest, parsed)) => Ok((wrap(parsed), rest.len())),
+            Err(nom::Err::Error(_)) => Err(Rejected::Error),
+            Err(nom::Err::Failure(_)) => Err(Rejected::Failure),
+            Err(nom::Err::Incomplete(_)) => unreachable!("complete parsers only"),
+        }
+    }
+    match entry {
+        Entry::Instructions => finish(
+            crate::parser::parse_instructions(&input),
+            Parsed::Instructions,
+        ),
+        Entry::Expression => finish(crate::parser::parse_expression(&input), Parsed::Expression),
+        Entry::MemoryReference => finish(
+            crate::parser::common::parse_memory_reference(&input),
+            Parsed::MemoryReference,
+        ),
+        Entry::FrameIdentifier => finish(
+            crate::parser::common::parse_frame_identifier(&input),
+            Parsed::FrameIdentifier,
+        ),
+        Entry::ExternSignature => finish(
+            crate::parser::pragma_extern::parse_extern_signature(&input),
+            Parsed::ExternSignature,
+        ),
+    }
+}
+
+/// The `qubits` and `gates` of a `DefGateSequence` (the fields are `pub(crate)`).
+pub fn def_gate_sequence_parts(sequence: &DefGateSequence) -> (&[String], &[Gate]) {
+    (&sequence.qubits, &sequence.gates)
+}
